@@ -15,6 +15,7 @@ type C15Case struct {
 	SrcLen   int    `json:"srclen"`
 	SrcFIFO  bool   `json:"srcfifo"`
 	SrcNils  bool   `json:"srcnils"`  // every third source element (from index 1) is nil
+	SrcMutex bool   `json:"srcmutex,omitempty"` // the source has SetMutex(): a lock taken on it must be released on every path
 	SrcStack int    `json:"srcstack"` // index of a nested Stack element in the source, -1 = none
 	DstKind  string `json:"dstkind"`
 	DstLen   int    `json:"dstlen"`
@@ -38,6 +39,9 @@ func runC15(c C15Case) (st Stats, err error) {
 		src = newStackOfKind(c.SrcKind, 0)
 		if c.SrcFIFO {
 			src.SetFIFO(true)
+		}
+		if c.SrcMutex {
+			src.SetMutex()
 		}
 		for i := 0; i < c.SrcLen; i++ {
 			var v any = tagValue(100 + i)
@@ -150,6 +154,24 @@ func runC15(c C15Case) (st Stats, err error) {
 	if after := Snapshot(src); after != srcBefore {
 		return st, violf("source-changed", "source changed by Transfer: %s", diffSnap(srcBefore, after))
 	}
+	if c.SrcMutex {
+		// the source must still be usable: a lock left behind shows as a lock request that cannot be served
+		locked := false
+		stackage.VerifHook = func(ev string, id uintptr) {
+			if ev == "lock.want" {
+				if d := stackage.VerifDump(src); cfgOf(d)["ldr"] == true {
+					locked = true
+					panic("the source's lock is still held after Transfer")
+				}
+			}
+		}
+		p := guard(func() { src.SetID("probe"); src.SetID("") })
+		stackage.VerifHook = nil
+		if locked || p != "" {
+			return st, violf("source-lock-leaked", "after Transfer the source cannot be locked again: %s", p)
+		}
+		st.Class("source-with-mutex")
+	}
 	dstAfter := Snapshot(dst)
 	dstNew := readContent(dst)
 
@@ -249,7 +271,8 @@ func enumC15(tier Tier, yield func(C15Case)) {
 				for _, fifo := range []bool{false, true} {
 					for _, nils := range []bool{false, true} {
 						base := C15Case{SrcKind: stackKinds[(srcLen+dstLen)%5], DstKind: stackKinds[(srcLen+2*dstLen+1)%5],
-							SrcLen: srcLen, DstLen: dstLen, CapExtra: capExtra, SrcFIFO: fifo, SrcNils: nils, SrcStack: -1, Opt: "plain"}
+							SrcLen: srcLen, DstLen: dstLen, CapExtra: capExtra, SrcFIFO: fifo, SrcNils: nils, SrcStack: -1, Opt: "plain",
+							SrcMutex: (srcLen+dstLen+capExtra)%2 == 0}
 						for _, form := range c15Forms {
 							c := base
 							c.Form = form
@@ -311,6 +334,7 @@ func genC15(t *rapid.T, tier Tier) C15Case {
 	}
 	c.Reject = rapid.IntRange(0, maxLen+1).Draw(t, "reject")
 	c.DstPrep = rapid.SampledFrom([]string{"", "", "reset", "remove", "insertfront", "popfifo"}).Draw(t, "dstprep")
+	c.SrcMutex = rapid.Bool().Draw(t, "srcmutex")
 	return c
 }
 
